@@ -10,8 +10,8 @@
    on: implied by acceptance for the construct grammar; acceptance itself is decided by the schema
    languages' reference validators in the correspondence). *)
 From Coq Require Import List String ZArith Bool.
-From Cog Require Import Model.GoSem Model.GoSemSpec08 Model.GoSemSpec01 Model.Ctor Model.PySem Model.PySemChecks
-  Model.PySemSpec Proofs.PySemProofs.
+From Cog Require Import Model.GoSem Model.GoSemSpec08 Model.GoSemSpec01 Model.GoSemSpec01F Model.Ctor Model.PySem
+  Model.PySemChecks Model.PySemSpec Proofs.PySemProofs Proofs.PySafeNeeded Proofs.PyGoWire.
 Import ListNotations.
 Local Open Scope string_scope.
 
@@ -66,6 +66,54 @@ Theorem py_go_same_wire_partial : forall pctx p pn d g,
   exists e, py_roundtrip pctx p pn d = POk e /\ agree_up_to_null_members e g.
 Proof. exact PySemProofs.py_go_same_wire_partial. Qed.
 Print Assumptions py_go_same_wire_partial.
+
+(* UNCONDITIONAL agreement on the decidable fragment wire_safeF (Model/PySemSpec.v): the document is valid for both
+   contexts, inside Go's corrected exclusion predicate roundtrip_safeF (C01) and inside py_rt_safe, and no member is
+   given as explicit null.  Go's side is the induction of Proofs/GoSemC01Sem2.v over Model/GoSemDecode.v's decode /
+   encode, Python's side py_roundtrip_partial; nothing is taken as a premise.  (The null-member restriction is a
+   limit of the proof: both round-trip theorems are stated "up to omitted null members"; which null members each SDK
+   omits is validated on every generated case, pf_wire_in_safe, not proved.) *)
+Theorem py_go_same_wire_safe : forall ctx pctx p gn pn d,
+  ctx_supported ctx = true -> json_wf d = true -> wire_safeF ctx pctx p gn pn d = true ->
+  same_wire_holds ctx pctx p gn pn d = true.
+Proof. exact PyGoWire.py_go_same_wire_safe. Qed.
+Print Assumptions py_go_same_wire_safe.
+
+Example py_go_same_wire_safe_nonvacuous :
+  ctx_supported wit_gctx = true /\
+  wire_safeF wit_gctx wit_ctx "w" "Root" "Root"
+    (JObj [("id", JStr "a"); ("opt", JObj [("x", JNum 1 0)]); ("tags", JArr [JStr "t"])]) = true.
+Proof. exact PyGoWire.py_go_same_wire_safe_nonvacuous. Qed.
+
+(* the output of the Python round trip has no duplicate member names *)
+Theorem py_roundtrip_wf : forall pctx p n d e,
+  json_wf d = true -> py_valid_object pctx p n d = true -> py_rt_safe_object pctx p n d = true ->
+  py_roundtrip pctx p n d = POk e -> le_null_u d e = true /\ json_wf e = true.
+Proof. exact PySemProofs.py_roundtrip_wf. Qed.
+Print Assumptions py_roundtrip_wf.
+
+(* ---- every exclusion of py_rt_safe is needed: a valid, duplicate-free document violating only that exclusion, on
+   which the round trip fails (needed pctx d := json_wf d /\ py_valid_object /\ py_rt_safe_object = false /\
+   py_roundtrip_holds = false) ---- *)
+Theorem py_rt_safe_conditions_needed :
+  needed N11.c_null_struct N11.d_null_struct /\      (* null for a reference to a struct: TypeError *)
+  needed N11.c_null_array N11.d_null_array /\        (* null for an array of non-scalars: TypeError *)
+  needed N11.c_null_map N11.d_null_map /\            (* null for a map of non-scalars: AttributeError *)
+  needed N11.c_abs_const (N11.idoc []) /\            (* absent optional constant: materialised *)
+  needed N11.c_abs_default (N11.idoc []) /\          (* absent optional member with a default: materialised *)
+  needed N11.c_abs_nonnull (N11.idoc []) /\          (* absent optional array not nullable in the IR: [] *)
+  needed N11.c_null_default N11.d_null_tags /\       (* null for an array with a default: replaced *)
+  needed N11.c_null_nonnull N11.d_null_t /\          (* null for an array not nullable in the IR: [] *)
+  needed N11.c_nested N11.d_nested /\                (* map of maps of non-scalars: shadowed `key` *)
+  needed N11.c_union N11.d_union.                    (* typing.Union[]: the module does not import *)
+Proof.
+  repeat split;
+    first [ apply safe_needed_null_struct | apply safe_needed_null_array | apply safe_needed_null_map
+          | apply safe_needed_absent_constant | apply safe_needed_absent_default | apply safe_needed_absent_not_nullable
+          | apply safe_needed_null_with_default | apply safe_needed_null_not_nullable | apply safe_needed_nested_maps
+          | apply safe_needed_empty_union ].
+Qed.
+Print Assumptions py_rt_safe_conditions_needed.
 
 Example c11_nonvacuous :
   exists pctx p n d, json_wf d = true /\ py_valid_object pctx p n d = true /\ py_rt_safe_object pctx p n d = true /\
